@@ -167,11 +167,11 @@ impl Command {
         let mut tokens_new = tokens.clone();
         let mut redirects_from_type = String::new();
         let mut redirects_from_value = String::new();
-        let mut has_redirect_from = tokens_new.iter().any(|x| x.1 == "<" || x.1 == "<<<");
+        let mut has_redirect_from = tokens_new.iter().any(|x| x.0.is_empty() && (x.1 == "<" || x.1 == "<<<"));
 
         let mut len = tokens_new.len();
         while has_redirect_from {
-            if let Some(idx) = tokens_new.iter().position(|x| x.1 == "<") {
+            if let Some(idx) = tokens_new.iter().position(|x| x.0.is_empty() && x.1 == "<") {
                 redirects_from_type = "<".to_string();
                 tokens_new.remove(idx);
                 len -= 1;
@@ -180,7 +180,7 @@ impl Command {
                     len -= 1;
                 }
             }
-            if let Some(idx) = tokens_new.iter().position(|x| x.1 == "<<<") {
+            if let Some(idx) = tokens_new.iter().position(|x| x.0.is_empty() && x.1 == "<<<") {
                 redirects_from_type = "<<<".to_string();
                 tokens_new.remove(idx);
                 len -= 1;
@@ -190,7 +190,7 @@ impl Command {
                 }
             }
 
-            has_redirect_from = tokens_new.iter().any(|x| x.1 == "<" || x.1 == "<<<");
+            has_redirect_from = tokens_new.iter().any(|x| x.0.is_empty() && (x.1 == "<" || x.1 == "<<<"));
         }
 
         let tokens_final;
